@@ -93,6 +93,7 @@ def plan(tier, seed):
     units += [{'part': 'charclass', 'first': i} for i in range(2 * len(CC_PARTS_QUICK if tier == 'quick' else CC_PARTS) + 6)]
     units += [{'part': 'categories', 'lo': lo, 'hi': lo + 0x11000} for lo in range(0, 0x110000, 0x11000)]
     units += [{'part': 'structure'}]
+    units += [{'part': 'install-history', 'versions': v} for v in (['13.0.0', '16.0.0'], ['2.0.0', '15.1.0'], ['12.1.0', '14.0.0'])]
     if tier != 'quick':
         units += [{'part': 'versions'}]
     return {
@@ -622,8 +623,9 @@ def structure_checks(acc, label):
             if (a1, e1) == (a2, e2) or n1 in n2 or n2 in n1:
                 superseded.add((n1, n2))
                 continue
-            acc.violation('C13|blocks-overlap|%s' % label, '%s and %s' % (n1, n2), {'spans': [[a1, e1], [a2, e2]]}, {'part': 'structure'})
-            break
+            acc.violation('C13|blocks-overlap|%s+%s' % (n1, n2), 'Unicode %s: blocks %s and %s' % (label, n1, n2), {'spans': [[a1, e1], [a2, e2]]},
+                          {'part': 'structure'})
+            continue
     acc.cmp(len(spans))
     acc.add('blocks_checked_' + label.replace('.', '_'), len(names))
 
@@ -651,10 +653,57 @@ def run_versions(unit, tier, acc):
     acc.sample({'versions': versions})
 
 
+def run_install_history(unit, tier, acc):
+    """S: histories install(v1) ; use the lazy \\d \\w subsets ; install(v2) ; the subsets must be those of v2 (and of the
+    interpreter's version after the final restore); every installed version gets the structural checks, incl. the fallback
+    path taken for versions without packaged tables."""
+    import warnings
+    from elementpath.regex import unicode_subsets as US
+    from elementpath.regex import character_classes as CCM
+    from elementpath.regex import CharacterClass, unicode_category
+    vs = unit['versions']
+
+    def touch():
+        return (list(CCM.d_shortcut()._codepoints), list(CCM.w_shortcut()._codepoints))
+
+    def expect():
+        from itertools import chain
+        from elementpath.regex import UnicodeSubset
+        return (list(unicode_category('Nd')._codepoints),
+                list(UnicodeSubset(chain.from_iterable(unicode_category(x) for x in 'LMNS'))._codepoints))
+    try:
+        for v1 in vs:
+            for v2 in vs:
+                if v1 == v2:
+                    continue
+                with warnings.catch_warnings():
+                    warnings.simplefilter('ignore')
+                    US.install_unicode_data(v1)
+                    touch()
+                    US.install_unicode_data(v2)
+                got, want = touch(), expect()
+                acc.ev(3)
+                acc.cmp()
+                acc.case(True)
+                cc = CharacterClass('\\d')
+                ok = got == want and list(cc.positive._codepoints) == want[0]
+                acc.outcome('install:' + ('ok' if ok else 'stale'))
+                if not ok:
+                    acc.violation('C13|install-history|lazy-subsets-not-refreshed', 'install_unicode_data(%r); use \\d,\\w; install_unicode_data(%r); use \\d,\\w' % (v1, v2),
+                                  {'Nd_entries_expected': len(want[0]), 'd_shortcut_entries': len(got[0])}, {'part': 'install-history'})
+                structure_checks(acc, v2)
+    finally:
+        US.install_unicode_data()
+    got, want = touch(), expect()
+    if got != want:
+        acc.violation('C13|install-history|not-restored', 'after install_unicode_data()', {}, {'part': 'install-history'})
+    acc.sample({'history': ['install_unicode_data(%r)' % vs[0], "CharacterClass('\\d')", 'install_unicode_data(%r)' % vs[-1], "CharacterClass('\\d')"]})
+
+
 def run_unit(unit, tier, acc):
     p = unit['part']
     {'subset': run_subset, 'charclass': run_charclass, 'categories': run_categories, 'structure': run_structure,
-     'versions': run_versions}[p](unit, tier, acc)
+     'versions': run_versions, 'install-history': run_install_history}[p](unit, tier, acc)
 
 
 def replay(case, acc):
@@ -666,5 +715,7 @@ def replay(case, acc):
         run_charclass({'first': case.get('first', 0)}, 'quick', acc)
     elif p == 'categories':
         run_categories({'lo': case.get('lo', 0), 'hi': case.get('hi', 0x11000)}, 'quick', acc)
+    elif p == 'install-history':
+        run_install_history({'versions': ['13.0.0', '16.0.0', '2.0.0']}, 'quick', acc)
     else:
         run_structure({}, 'quick', acc)
